@@ -15,7 +15,7 @@ class C15(Prop):
                   'behaviour after the first timeout is not compared.')
     design_ref = '§5 C15'
     rule = ('(period P, lifetime L) from a grid incl. sub-second values x acknowledgement pattern (always, never, stops at t, delayed/irregular gaps below and above L) over a horizon of '
-            '~8 lifetimes; plus KEEPALIVE frames with/without respond flag and data sent to a client and to a server; non-trivial = at least 3 keepalives sent and at least one arrival '
+            '~8 lifetimes, in 30% of the cases with a multi-fragment upload on a slow link keeping the send queue busy across several periods; plus KEEPALIVE frames with/without respond flag and data sent to a client and to a server; non-trivial = at least 3 keepalives sent and at least one arrival '
             'or a timeout; distinct = distinct (P, L, arrivals)')
     assumptions = ['integer-millisecond periods (timedelta of whole milliseconds)']
 
@@ -47,7 +47,12 @@ class C15(Prop):
                 if t % L == 0:
                     t += 1
                 arr.append(t)
-            out.append({'kind': 'timing', 'P': P, 'L': L, 'h': horizon, 'arr': arr, 'pat': pat})
+            c = {'kind': 'timing', 'P': P, 'L': L, 'h': horizon, 'arr': arr, 'pat': pat}
+            if rng.random() < 0.3:
+                # outbound traffic that keeps the send queue non-empty across several keep-alive periods: a multi-fragment frame on a link that
+                # takes `gap` ms per frame
+                c['busy'] = {'at': rng.randint(0, max(1, horizon // 2)), 'size': rng.choice([600, 2000, 6000]), 'gap': rng.choice([7, 40, P // 2 + 1, P + 3])}
+            out.append(c)
         for _ in range(60 if tier == 'quick' else 1500):
             out.append({'kind': 'echo', 'role': rng.choice(['client', 'server']),
                         'frames': [{'respond': rng.random() < 0.6, 'data': [rng.randint(1, 250) for _ in range(rng.choice([0, 1, 3]))]} for _ in range(rng.randint(1, 5))]})
@@ -69,11 +74,27 @@ class C15(Prop):
 
     async def _timing(self, loop, case):
         from rsocket import frame as F
-        R = clientrun.ClientRun(loop, n_transports=1, ka_ms=case['P'], life_ms=case['L'])
+        import asyncio
+        busy = case.get('busy')
+        R = clientrun.ClientRun(loop, n_transports=1, ka_ms=case['P'], life_ms=case['L'], **({'fragment_size_bytes': 64} if busy else {}))
         c = R.build()
         await c.connect()
         await loop.settle()
         t = R.transports[0]
+
+        async def uploader():
+            from rsocket.payload import Payload
+            await asyncio.sleep(busy['at'] / 1000)
+            t.gated = True
+            c.fire_and_forget(Payload(b'u' * busy['size']))
+            for _ in range(400):
+                await asyncio.sleep(busy['gap'] / 1000)
+                if not t.release() and c._send_queue.empty():
+                    break
+            t.gated = False
+            while t.release():
+                pass
+        up = asyncio.ensure_future(uploader()) if busy else None
         for a in case['arr']:
             await loop.advance(a - loop.now_ms())
             if R.timeouts:
@@ -83,7 +104,14 @@ class C15(Prop):
         if not R.timeouts:
             await loop.advance(case['h'] - loop.now_ms())
         first = R.timeouts[0][0] if R.timeouts else None
-        sends = [round(e[0]) for e in t.sent if isinstance(e[2], F.KeepAliveFrame) and (first is None or e[0] <= first)]
+        if up is not None:
+            up.cancel()
+            t.gated = False
+            while t.release():
+                pass
+            await loop.settle()
+        # the moment a KEEPALIVE is handed to the send queue (= the moment it is written, unless the link is busy)
+        sends = [round(tm) for e, tm in zip(R.log, R.times) if e == 'K' and (first is None or tm <= first)]
         respond_flags = [bool(e[2].flags_respond) for e in t.sent if isinstance(e[2], F.KeepAliveFrame)]
         try:
             await c.close()
